@@ -11,14 +11,15 @@ case "$P" in
   revert:*) C="${P#revert:}"; git diff "$C~1" "$C" | git apply -R || { echo "cannot revert $C"; exit 2; } ;;
   *) git apply "$P" || { echo "patch does not apply"; exit 2; } ;;
 esac
-cd "$VDIR"
-VERIF_REPO="$REPO" python3 pv.py "$PROP" --tier "$TIER" > /tmp/trypatch.out 2> /tmp/trypatch.err
+cd "$VDIR"; T=/tmp/trypatch.$$
+VERIF_REPO="$REPO" python3 pv.py "$PROP" --tier "$TIER" > $T.out 2> $T.err
 RC=$?
 git -C "$REPO" checkout -- . ; git -C "$REPO" clean -fdq
-echo "exit=$RC"; grep -c '^VIOLATION' /tmp/trypatch.out | sed 's/^/violation_lines=/'
-grep '^VIOLATION\|^KNOWN' /tmp/trypatch.out | head -3
-grep -A1 '^VIOLATION' /tmp/trypatch.err | head -2; grep '^  C[0-9]' /tmp/trypatch.err | head -4 | cut -c1-300
-tail -1 /tmp/trypatch.err | cut -c1-300
+echo "exit=$RC"; grep -c '^VIOLATION' $T.out | sed 's/^/violation_lines=/'
+grep '^VIOLATION\|^KNOWN' $T.out | head -3
+grep -A1 '^VIOLATION' $T.err | head -2; grep '^  C[0-9]' $T.err | head -4 | cut -c1-300
+tail -1 $T.err | cut -c1-300
 # restore evidence of the unchanged tree afterwards (evidence files are rewritten by every run)
 git -C "$VDIR" checkout -- evidence 2>/dev/null
+rm -f $T.out $T.err
 exit 0
